@@ -285,6 +285,9 @@ def impl_highwater(case):
 
     flags = {"inexact": False}
     doc = to_qref(case["routine"])
+    if case.get("native"):
+        from hier import native_numbers
+        doc = native_numbers(doc)      # integer literals as native ints (size: 0, not size: "0")
     if case.get("remap"):
         # the hierarchy handed over as a Routine OBJECT that was edited programmatically: at every level one child was taken
         # out of the children mapping and put back (so it now comes LAST in the mapping), the listed order (children_order)
@@ -361,6 +364,8 @@ def impl_graddesc(case):
 
     f = _cost(case["kind"], *[float.fromhex(h) for h in case["abc"]])
     bounds = tuple(float.fromhex(h) for h in case["bounds"]) if case["bounds"] else None
+    if bounds is not None and case.get("bounds_list"):
+        bounds = list(bounds)      # the interval as a two-element LIST (what an options file read from JSON / YAML holds)
     try:
         r = Optimizer.gradient_descent(f, x0=float.fromhex(case["x0"]), bounds=bounds,
                                        learning_rate=float.fromhex(case["lr"]), max_iter=case["max_iter"],
@@ -376,7 +381,7 @@ def impl_graddesc(case):
 def impl_minimize(case):
     from bartiq.analysis import minimize
 
-    kw = {"x0": case["x0"], "bounds": tuple(case["bounds"]) if case["bounds"] else None,
+    kw = {"x0": case["x0"], "bounds": (list(case["bounds"]) if case.get("bounds_list") else tuple(case["bounds"])) if case["bounds"] else None,
           "learning_rate": case["lr"], "max_iter": case["max_iter"], "tolerance": case["tol"]}
     if case.get("reuse"):
         # one options dictionary used for several minimisations in a row: the call under test is the second one with it
@@ -526,6 +531,21 @@ def impl_repro(case):
     res1 = compile_routine(doc)
     out = {"mutated_input_doc": doc.model_dump_json() != before}
     res2 = compile_routine(doc)
+    # the same hierarchy handed over as a live Routine OBJECT (built once, compiled twice): the object must come back as it
+    # went in, and the second compilation must give what the document gives
+    try:
+        from bartiq import sympy_backend as _sb3
+        from bartiq._routine import Routine as _R3
+        robj3 = _R3.from_qref(doc, _sb3)
+        snap3 = pickle.dumps(robj3)
+        ro1 = compile_routine(robj3)
+        if pickle.dumps(robj3) != snap3:
+            out["mutated_input_doc"] = True
+        ro2 = compile_routine(robj3)
+        if ro1.routine != ro2.routine or ro1.to_qref().model_dump_json() != res1.to_qref().model_dump_json():
+            out["mutated_input_doc"] = True
+    except Exception:
+        pass
     exp1 = res1.to_qref().model_dump_json()
     exp2 = res2.to_qref().model_dump_json()
     out["compile_repeatable"] = exp1 == exp2 and res1.routine == res2.routine
@@ -865,6 +885,47 @@ def impl_parse(case):
     return out
 
 
+def _sympy_direct(e):
+    """A sympy object built from an expression tree WITHOUT bartiq's parser (what code that assembles expressions itself, or
+    an earlier version of the tool, may hand to the serializer); None when the tree uses something this builder does not."""
+    import sympy
+    k = e[0]
+    if k == "n":
+        return sympy.Rational(e[1], e[2])
+    if k == "s":
+        return sympy.Symbol(e[1])
+    if k == "o":
+        args = [_sympy_direct(a) for a in e[2]]
+        if any(a is None for a in args):
+            return None
+        o = e[1]
+        if o == "add":
+            return sympy.Add(*args)
+        if o == "mul":
+            return sympy.Mul(*args)
+        if o == "sub" and len(args) == 2:
+            return args[0] - args[1]
+        if o == "div" and len(args) == 2:
+            return args[0] / args[1]
+        if o == "pow" and len(args) == 2:
+            return sympy.Pow(args[0], args[1])
+        if o == "neg" and len(args) == 1:
+            return -args[0]
+        if o == "max":
+            return sympy.Max(*args)
+        if o == "min":
+            return sympy.Min(*args)
+        if o == "ceil" and len(args) == 1:
+            return sympy.ceiling(args[0])
+        if o == "floor" and len(args) == 1:
+            return sympy.floor(args[0])
+        return None
+    if k == "f" and e[1] in ("f", "g"):
+        args = [_sympy_direct(a) for a in e[2]]
+        return None if any(a is None for a in args) else sympy.Function(e[1])(*args)
+    return None
+
+
 def impl_roundtrip(case):
     """C12: build a sympy expression, write it out with bartiq's serializer, read the text back with bartiq's parser."""
     from bartiq import sympy_backend as B
@@ -882,7 +943,9 @@ def impl_roundtrip(case):
             from bartiq.symbolics.sympy_backend import parse_to_sympy
             e = parse_to_sympy(to_str(case["expr"]))
         else:
-            e = B.as_expression(to_str(case["expr"])) if "expr" in case else B.as_expression(case["text"])
+            e = _sympy_direct(case["expr"]) if case.get("direct") and "expr" in case else None
+            if e is None:
+                e = B.as_expression(to_str(case["expr"])) if "expr" in case else B.as_expression(case["text"])
         if case.get("assign"):
             # an expression as evaluation produces it: substitute some symbols (rationals / floats) first
             e = B.substitute(e, {k: B.as_expression(v) for k, v in case["assign"].items()})
